@@ -10,6 +10,7 @@ pub mod sym;
 pub mod spec;
 pub mod s5;
 pub mod s6;
+pub mod wiring;
 pub mod h;
 #[cfg(not(kani))]
 pub mod registry;
